@@ -34,10 +34,6 @@ def _I():
     return I
 
 
-def _price_prepare(field, stream):
-    return None
-
-
 # ---- variant builders: f(kw, stream) -> variants_fn(extra) ------------------------------------------
 
 def _v_rsi(kw, st):
@@ -263,6 +259,14 @@ def _group(name, kw, st, mode):
             if kind in ("never", "gap", "late-data-dependent"):
                 # adx.py: `if atr and pos` / `if dx`: a smoothed +DM (or ATR, ADX) of exactly 0.0 reads as missing
                 return "truthiness-zero-reading"
+            real = getattr(obj, "readings", None)
+            if real is not None:
+                ref = R.adx(st.H, st.L, st.C, kw["period"], kw["period_signal"], dm_at_0=True)
+                dip = R.field_series(real, "DM_Plus")
+                if any(dip[i] is None and R.defined(ref["DM_Plus"][i]) and abs(ref["DM_Plus"][i]) < 1e-9 for i in range(min(len(dip), st.n))):
+                    # +DI missing exactly where the smoothed +DM is 0.0 (same truthiness test); the DX series
+                    # then starts later and every ADX value after it is shifted
+                    return "truthiness-zero-reading"
             if kind == "value" and field == "ADX" and _adx_stage_blame(kw, st, mode) == "seed":
                 # rma.py seed divisor uses absolute indices: the DX series starts late (index `period`)
                 return "rma-seed-late-input"
